@@ -29,16 +29,16 @@ local macro "cfg_cases" c:term : tactic => `(tactic|
 /-! ## 1. drop-in, feed-forward classes: for EVERY interpretation of the primitives and EVERY
        quantizer / activation functions -/
 
-/-- classes whose `call` quantizes each weight tensor as stored (since /repo 5ab82ec also
+/-- classes whose `call` quantizes each weight tensor as stored (since /repo 871ddb1 also
     QSeparableConv1D) -/
 def Plain (cls : Cls) : Prop :=
   cls = .dense ∨ cls = .activation ∨ cls = .conv1d ∨ cls = .conv2d ∨ cls = .sepConv1d ∨
   cls = .sepConv2d ∨ cls = .dwConv2d ∨ cls = .scaleShift
 
 /-- QDense, QActivation, QConv1D (both data formats, every padding — causal under channels_first
-    included since /repo 035b3d2: the former hypothesis `CausalOK` is gone), QConv2D (no mask),
+    included since /repo 6ddae0e: the former hypothesis `CausalOK` is gone), QConv2D (no mask),
     QSeparableConv1D (every quantizer function — the former hypothesis `CommutesExpand` is gone since
-    /repo 5ab82ec), QSeparableConv2D, QDepthwiseConv2D, QScaleShift:
+    /repo 871ddb1), QSeparableConv2D, QDepthwiseConv2D, QScaleShift:
     output = activation (stock layer on weights `q_i(w_i)`). -/
 theorem C11_dropin (I : Interp T) (E : Env T) (cls : Cls) (c : LCfg) (hc : Plain cls)
     (hm : c.hasMask = false) (ha : cls = .activation → c.hasAct = true) :
@@ -71,7 +71,7 @@ theorem C11_dropin_conv2d_masked (I : Interp T) (E : Env T) (c : LCfg) (hm : c.h
   cfg_cases c <;> simp [eval, *]
 
 /-- QSeparableConv1D is drop-in for EVERY quantizer function (instance of `C11_dropin`; until /repo
-    5ab82ec this needed the hypothesis that both kernel quantizers commute with `expand_dims(·, 0)`). -/
+    871ddb1 this needed the hypothesis that both kernel quantizers commute with `expand_dims(·, 0)`). -/
 theorem C11_dropin_sepConv1d (I : Interp T) (E : Env T) (c : LCfg) (hm : c.hasMask = false) :
     eval I E (qlayer .sepConv1d c) = actOf c E (eval I (preEnv c E) (kerasLayer .sepConv1d c)) :=
   C11_dropin I E .sepConv1d c (by simp [Plain]) hm (by intro h; cases h)
@@ -81,7 +81,7 @@ theorem C11_dropin_sepConv1d (I : Interp T) (E : Env T) (c : LCfg) (hm : c.hasMa
 def CommutesExpand (I : Interp T) (q : T → T) : Prop :=
   ∀ t, q (I.op1 (.expandDims 0) t) = I.op1 (.expandDims 0) (q t)
 
-/-- the repair 5ab82ec (quantize the stored kernels, expand afterwards) PRESERVES the layer's value
+/-- the repair 871ddb1 (quantize the stored kernels, expand afterwards) PRESERVES the layer's value
     for every quantizer that commutes with the reshape: old `call` = new `call`. -/
 theorem C11_sepConv1d_repair_preserves_commuting (I : Interp T) (E : Env T) (c : LCfg)
     (h0 : c.hasQ 0 = true → CommutesExpand I (E.quant 0))
@@ -92,7 +92,7 @@ theorem C11_sepConv1d_repair_preserves_commuting (I : Interp T) (E : Env T) (c :
   by_cases hp : c.conv.padding = .causal <;> cfg_cases c <;> simp_all [eval]
 
 /-- REGRESSION WITNESS of finding C11-sepconv1d-expanded-kernel-auto-scale (repaired in /repo
-    5ab82ec): in the interpretation where the quantizer distinguishes the expanded kernel (the old
+    871ddb1): in the interpretation where the quantizer distinguishes the expanded kernel (the old
     counterexample), the OLD `call` (expand first) is not the stock layer on pre-quantized weights,
     the layer as it is now is. -/
 theorem C11_sepConv1d_expand_first_fixed_witness :
@@ -361,7 +361,7 @@ theorem C11_elementwise_commutes_expandDims (q : QSpec) (f : ℚ → ℚ) (h : q
     CommutesExpand concrete q.apply :=
   fun t => elementwise_commutes_expandDims q f h 0 t
 
-/-- … so for them the repair 5ab82ec changed nothing: concretely, any geometry, weights and inputs,
+/-- … so for them the repair 871ddb1 changed nothing: concretely, any geometry, weights and inputs,
     the old `call` (expand, then quantize) and the present one give the same tensor (non-vacuity of the
     hypothesis of `C11_sepConv1d_repair_preserves_commuting`). -/
 theorem C11_sepConv1d_repair_preserves_elementwise (c : LCfg) (x : Tensor) (ws : List Tensor) (qs as : List QSpec)
@@ -507,7 +507,7 @@ theorem C11_cell_bias_rank2_format_free (x bias : Tensor) (b n : ℕ) (hs : x.sh
     op2C (.biasAdd .channelsFirst) x bias = op2C (.biasAdd .channelsLast) x bias :=
   biasAddC_rank2 x bias b n hs
 
-/-- the repair 035b3d2 (pad the time axis in `call`, `valid` to `K.conv1d`) PRESERVES the term wherever
+/-- the repair 6ddae0e (pad the time axis in `call`, `valid` to `K.conv1d`) PRESERVES the term wherever
     the old code was right: not causal, or causal under channels_last — old `call` = new `call`. -/
 theorem C11_conv1d_repair_preserves_channelsLast (c : LCfg)
     (h : c.conv.padding = .causal → c.conv.df = .channelsLast) :
@@ -517,7 +517,7 @@ theorem C11_conv1d_repair_preserves_channelsLast (c : LCfg)
   · simp [hp, h hp]
   · simp [hp]
 
-/-- REGRESSION WITNESS of finding C11-conv1d-causal-channels-first (repaired in /repo 035b3d2):
+/-- REGRESSION WITNESS of finding C11-conv1d-causal-channels-first (repaired in /repo 6ddae0e):
     QConv1D(padding='causal', data_format='channels_first').  In the interpretation that tells a pad
     of axis 1 (the channel axis — what `K.conv1d` does with `causal`) from a pad of axis 2 (the time
     axis — what the stock layer does), the OLD `call` is not the stock layer on pre-quantized weights,
